@@ -50,7 +50,18 @@ func verifIndexChannelDBShaped(d, s int, aligned, tightEnd bool) (*DB, []telem.T
 		all = append(all, ts...)
 		prev = end
 	}
-	ddb := domain.VerifBuildDB(specs)
+	// the domains are written in an arbitrary order (histories with out-of-order writers)
+	order := make([]int, 0, d)
+	for i := 0; i < d; i++ {
+		pos := 0
+		if i > 0 {
+			pos = verifLen("write-order", 0, i)
+		}
+		order = append(order, 0)
+		copy(order[pos+1:], order[pos:])
+		order[pos] = i
+	}
+	ddb := domain.VerifBuildDBInOrder(specs, order)
 	ch := channel.Channel{Key: 1, Name: "idx", IsIndex: true, Index: 1, DataType: telem.TimeStampT}
 	db := &DB{
 		domain:           ddb,
